@@ -150,6 +150,7 @@ mutual
 def substTy (σ : List (String × Ty)) : Ty → Ty
   | .typeVar n b cs => match σ.lookup n with | some t => t | none => .typeVar n b cs
   | .seq o (some a) => .seq o (some (substTy σ a))
+  | .valueOrList (some a) => .valueOrList (some (substTy σ a))
   | .tupleFixed ts => .tupleFixed (substTys σ ts)
   | .mapping o as => .mapping o (substTys σ as)
   | .union ts =>
@@ -175,6 +176,7 @@ end
 partial def freeVars : Ty → List String
   | .typeVar n _ _ => [n]
   | .seq _ (some a) => freeVars a
+  | .valueOrList (some a) => freeVars a
   | .tupleFixed ts | .union ts | .tupleLit ts => dedupS (ts.flatMap freeVars)
   | .mapping _ as => dedupS (as.flatMap freeVars)
   | .annotated t _ => freeVars t
